@@ -28,7 +28,8 @@ func allMethodConfigs(thorough bool) []methSpec {
 		l = append(l, methSpec{kind: mNewton, ls: ls})
 	}
 	l = append(l, methSpec{kind: mCG, variant: -1})
-	l = append(l, methSpec{kind: mNM}, methSpec{kind: mNM, simplex: true})
+	l = append(l, methSpec{kind: mNM}, methSpec{kind: mNM, simplex: true}, methSpec{kind: mNM, simplex: true, nmParams: true}, methSpec{kind: mNM, nmParams: true})
+	l = append(l, methSpec{kind: mCMA, cmaChol: true}, methSpec{kind: mCMA, cmaStep: true, cmaChol: true, forget: true})
 	for _, pop := range []int{0, 3} {
 		l = append(l, methSpec{kind: mCMA, pop: pop}, methSpec{kind: mCMA, pop: pop, forget: true})
 	}
@@ -182,6 +183,9 @@ func randomMethod(r *vrt.Rand) methSpec {
 	m.forget = r.Chance(0.4)
 	m.rows = 1 + r.Intn(12)
 	m.simplex = r.Chance(0.3)
+	m.nmParams = r.Chance(0.3)
+	m.cmaChol = r.Chance(0.3)
+	m.cmaStep = r.Chance(0.3)
 	m.gradStop = r.PickInt(0, 0, 0, 1, 2)
 	return m
 }
@@ -390,4 +394,67 @@ func catCases(c *vrt.Ctx, thorough bool) []*caseSpec {
 		}
 	}
 	return cases
+}
+
+// fixedDim reports whether the method value carries user data of a fixed
+// dimension (documented to panic on a mismatch).
+func (m methSpec) fixedDim() bool {
+	return m.kind == mLS || m.kind == mNM && m.simplex || m.kind == mCMA && m.cmaChol
+}
+
+// gridHistories: every method configuration, the same method value used for
+// several judged runs in a row (after an early stop, after a complete run,
+// after a different dimension). Independent of the seed.
+func gridHistories(thorough bool) [][]*caseSpec {
+	var hs [][]*caseSpec
+	seed := uint64(900000)
+	mk := func(m methSpec, dim int, s setSpec) *caseSpec {
+		seed++
+		return &caseSpec{group: "hist", m: m, s: s, obj: simpleBowl(dim), seed: seed}
+	}
+	for _, m := range allMethodConfigs(thorough) {
+		hs = append(hs, []*caseSpec{mk(m, 2, setSpec{limF: 1}), mk(m, 2, setSpec{}), mk(m, 2, setSpec{limMaj: 2}), mk(m, 2, setSpec{limF: 3, concurrent: 4})})
+		hs = append(hs, []*caseSpec{mk(m, 2, setSpec{}), mk(m, 2, setSpec{})})
+		if !m.fixedDim() {
+			hs = append(hs, []*caseSpec{mk(m, 3, setSpec{limF: 2}), mk(m, 2, setSpec{}), mk(m, 5, setSpec{limMaj: 3}), mk(m, 1, setSpec{})})
+		}
+	}
+	return hs
+}
+
+// randomHistory: 2-3 judged runs with one method value; objective, dimension
+// (where the method value allows it), settings and limits change in between,
+// and the first run often stops early.
+func randomHistory(r *vrt.Rand) []*caseSpec {
+	m := randomMethod(r)
+	n := 2 + r.Intn(2)
+	base := randomObjective(r)
+	if m.usesHess() && base.h == nil {
+		base = simpleBowl(1 + r.Intn(6))
+	}
+	var hist []*caseSpec
+	for i := 0; i < n; i++ {
+		obj := base
+		if i > 0 && !(m.kind == mNM && m.simplex) {
+			switch {
+			case m.fixedDim() && r.Bool():
+				obj = simpleBowl(base.dim)
+			case m.fixedDim():
+				obj = newQuadratic(r, base.dim, 100)
+			default:
+				obj = randomObjective(r)
+				if m.usesHess() && obj.h == nil {
+					obj = simpleBowl(1 + r.Intn(6))
+				}
+			}
+		}
+		cs := &caseSpec{group: "hist", m: m, obj: obj, seed: r.Uint64()}
+		cs.s = randomSettings(r, m)
+		if i == 0 && r.Bool() {
+			cs.s.limF = r.PickInt(1, 2, 3, 10)
+		}
+		ensureBounded(r, cs, 0.9)
+		hist = append(hist, cs)
+	}
+	return hist
 }
